@@ -227,9 +227,9 @@ def stageUpgrade (cfg : SrvCfg) (env : SrvEnv) (hs : List Hdr) : Stage Unit :=
     if cfg.webStatus then
       match env.redirect with
       | .absent => .error (.statusPage none)
-      | .bad cls => .error (.escapes cls)
+      | .bad _ => bad                              -- `except Exception: failHandshake(…)`   (fix cb4d1ff0)
       | .url u .absent => .error (.redirect303 u)
-      | .url _ .bad => .error (.escapes .valueError)
+      | .url _ .bad => bad                         -- `except ValueError: failHandshake(…)`  (fix cb4d1ff0)
       | .url u (.val n) => .error (.statusPage (some (n, u)))
     else .error (.fail 426 [])
   | some h => if hasToken b!"websocket" h.val then .ok () else bad
@@ -506,8 +506,7 @@ def client (cfg : CliCfg) (key : Bytes) (data : Bytes) : CliOut :=
   | none => .incomplete
   | some eoh =>
     let head := data.take (eoh + 4)
-    -- `self.http_response_data.decode("utf8")` evaluated eagerly as a log argument
-    if !utf8Valid head then .escapes .unicodeDecodeError else
+    -- (the eager `.decode("utf8")` of the debug log call now uses errors="replace": fix 96829a53)
     match parseHttpHeader head with
     | none => .escapes .indexError
     | some (line, hs) =>
